@@ -80,6 +80,14 @@ PARTIAL = {
     "ElasticConstants 'isotropic'": "normalized_as('isotropic') goes through the Hill estimates shear()/bulk() (inverse "
         '6x6 array, property C11): they are parameters of normForm, so elastic_model_normal_form covers the seven '
         "closed-form systems (cubic, hexagonal, tetragonal, rhombohedral, orthorhombic, monoclinic, triclinic); an isotropic tensor stored as 'isotropic' is checked on the real code only (1e-12)",
+    'call forms': 'the argument handling of Atoms.model (prop_unit dictionary / prop_name + unit lists / unit list alone '
+        '/ prop_name alone / nothing; refusals) is inside the model (resolveCall) and the tie; the containers the '
+        'arguments arrive in (tuple, numpy array, OrderedDict), positional vs keyword order and the containers of '
+        'symbols / masses / pbc are exercised on the real code only (the model sees the resolved lists)',
+    'working-unit configurations': "uc.reset_units itself is property C09's model (C09.resetScales); here a "
+        'configuration is the factor function fac, and the harness supplies the factors from its own unit table (SI '
+        'value and dimension per unit name, base factors from the SI values of the chosen working units), for random '
+        "working units from numericalunits' five base units as drawn",
     'text codecs': "DataModelDict's JSON/XML codecs are not modelled character by character: JSON is taken as the "
         'identity on the tree, XML as xmlNorm (one-element-list collapse); both observed on every correspondence case',
 }
@@ -119,7 +127,19 @@ RULE = ('seeded systems (1-7 atoms, 1-3 types, lower-triangular cells with every
         'twice (first result overwritten by the caller) and every read done twice (first result overwritten), object / '
         'arguments / input / tree compared bitwise before and after; 14 documented refusals; distinct = distinct '
         'canonical request line; non-trivial = a unit conversion, a reshape, a scaled '
-        'property, a text encoding or object state is involved')
+        'property, a text encoding or object state is involved. Round 3: working-unit configurations with named time '
+        'units (ps / fs / ns), a derived length or mass, a single keyword, two random draws, and generated keyword sets '
+        "(1-4 of length / mass / time / energy / charge, never over-determined); storage units spelled in the literal SI "
+        "base units (m/s, kg*m/s^2, kg/(m*s^2), A*s, K, eV/K, C/m^2 ...), with s / kg / m / C / K as cancelling factor, "
+        "and the non-ASCII name Å; unit factors from the harness's own unit table (never from numericalunits' derived "
+        'units); every call form of the unit arguments for Atoms.model / System.model / dump (prop_unit dictionary, '
+        'prop_name + unit lists, the unit list alone, prop_name alone, nothing; keyword or positional; lists, tuples, '
+        'numpy arrays, OrderedDict); falsy-but-valid values (masses of exactly 0.0 in every pattern with None, '
+        "all-zero / all-False / empty-string properties, whole-number floats, pbc all False / all True, '' symbols, an "
+        'uncertainty of exactly zero, masses= override with 0.0); symbols / masses / pbc handed over as lists, tuples, '
+        'arrays, 0/1 integers; systems nested at different depths of a record (System(model=record), load(key=, index=)); '
+        'elastic constants with negligible leftovers in the empty slots and a hair (1e-6 .. 1e-11 relative, 1e-7 of the '
+        'largest constant) off a higher symmetry')
 ASSUMPTIONS = [
     "the conversion factor of a unit string under a working-unit configuration is a scalar parameter fac(u) != 0 "
     "(uc.parse is property C09's subject; on every run the factors handed to the model are evaluated by the harness's "
@@ -594,6 +614,12 @@ def apply_again(case):
     return c2
 
 
+# containers the arguments arrive in: prop_name / unit as lists, tuples or numpy arrays, prop_unit as a dict or an
+# OrderedDict; symbols / masses / pbc of a System as lists, tuples or arrays (pbc also as 0 / 1 integers)
+ARGFORMS = ['list', 'list', 'tuple', 'ndarray', 'odict']
+CONTAINERS = ['list', 'list', 'tuple', 'ndarray', 'ints']
+
+
 CALLS = ['prop_unit', 'prop_unit', 'lists', 'lists', 'units', 'units', 'names', 'default']
 
 
@@ -635,6 +661,7 @@ def gen_atoms(rng):
         case['again'] = _gen_again(rng, props, box=False)
     case['call'] = _gen_call(rng, props, case.get('sel'))
     case['positional'] = rng.random() < 0.3
+    case['argform'] = rng.choice(ARGFORMS)
     return case
 
 
@@ -695,7 +722,8 @@ def gen_sys(rng):
             # (all three False - a cluster - and all three True included)
             'pbc': rng.choice([[False] * 3, [True] * 3] + [[rng.random() < 0.6 for _ in range(3)]] * 5), 'symbols': symbols, 'masses': masses, 'mass_form': mass_form,
             'natoms': natoms, 'props': props,
-            'call': _gen_call(rng, props, sel), 'positional': rng.random() < 0.3,
+            'call': _gen_call(rng, props, sel), 'positional': rng.random() < 0.3, 'argform': rng.choice(ARGFORMS),
+            'cont': rng.choice(CONTAINERS),
             'io': io,
             # the target file exists already and is longer than what is written now
             'prefill': io == 'path' and rng.random() < 0.5,
@@ -941,10 +969,23 @@ def _mass_in(m, form):
 
 def _mk_sys(case):
     import atomman as am
+    import numpy as np
     masses = [_mass_in(m, case.get('mass_form')) for m in case['masses']]
-    return am.System(atoms=_mk_atoms(case), box=_mk_box(case['box']), pbc=case['pbc'],
-                     symbols=case['symbols'] if case['symbols'] else None,
-                     masses=masses if masses else None)
+    symbols, pbc = case['symbols'], case['pbc']
+    cont = case.get('cont', 'list')
+    if cont == 'tuple':
+        masses, symbols, pbc = tuple(masses), tuple(symbols), tuple(pbc)
+    elif cont == 'ints':
+        pbc = [int(b) for b in pbc]
+    elif cont == 'ndarray':
+        pbc = np.array(pbc)
+        if masses and None not in masses:
+            masses = np.array(masses)
+        if symbols and None not in symbols:
+            symbols = np.array(symbols)
+    return am.System(atoms=_mk_atoms(case), box=_mk_box(case['box']), pbc=pbc,
+                     symbols=symbols if len(symbols) else None,
+                     masses=masses if len(masses) else None)
 
 
 def _mk_ec(case):
@@ -1363,14 +1404,26 @@ def _prop_kw(case, r=None):
         call = 'prop_unit'
     if call in ('default', 'names') and not all(u is None for u in units):
         call = 'prop_unit'
+    form = case.get('argform', 'list')
+
+    def seq(x, obj=False):
+        if form == 'tuple':
+            return tuple(x)
+        if form == 'ndarray':
+            import numpy as np
+            return np.array(x, dtype=object) if obj else np.array(x)
+        return list(x)
     if call == 'default':
         return {}
     if call == 'names':
-        return dict(prop_name=names)
+        return dict(prop_name=seq(names))
     if call == 'units':
-        return dict(unit=units)
+        return dict(unit=seq(units, True))
     if call == 'lists':
-        return dict(prop_name=names, unit=units)
+        return dict(prop_name=seq(names), unit=seq(units, True))
+    if form == 'odict':
+        from collections import OrderedDict
+        return dict(prop_unit=OrderedDict(zip(names, units)))
     return dict(prop_unit=dict(zip(names, units)))
 
 
@@ -1383,7 +1436,19 @@ def _model_call(obj, case, kw, **first):
 
 
 def _kw_copy(kw):
-    return {k: (dict(v) if isinstance(v, dict) else list(v)) for k, v in kw.items()}
+    import copy
+    return {k: copy.copy(v) for k, v in kw.items()}
+
+
+def _kw_same(a, b):
+    """the arguments are what they were (same containers, same entries in the same order)."""
+    if list(a) != list(b):
+        return False
+    for k in a:
+        if type(a[k]) is not type(b[k]) or list(a[k].items() if isinstance(a[k], dict) else a[k]) != \
+                list(b[k].items() if isinstance(b[k], dict) else b[k]):
+            return False
+    return True
 
 
 def _sys_roundtrip(case, s, r, path=None):
@@ -1415,7 +1480,7 @@ def _sys_roundtrip(case, s, r, path=None):
                                'between) returns different trees'))
         else:
             model = s.dump('system_model', box_unit=case['box_unit'], **fmtkw)
-        if fmtkw != kw0:
+        if not _kw_same(fmtkw, kw0):
             r.side.append(('arguments-modified', f'System.model / dump changed the arguments it was given: {kw0} -> {fmtkw}'))
             fmtkw = _kw_copy(kw0)
         if _snap_sys(s) != before:
@@ -1568,7 +1633,7 @@ def _atoms_roundtrip(case, a, r):
         if _tree_text(model) != kept:
             r.side.append(('write-twice', 'Atoms.model() called twice (the first tree overwritten by the caller in between) '
                            'returns different trees'))
-        if pu != pu0:
+        if not _kw_same(pu, pu0):
             r.side.append(('arguments-modified', f'Atoms.model changed the arguments it was given: {pu0} -> {pu}'))
         if _snap_atoms(a) != before:
             r.side.append(('write-modifies-object', 'Atoms.model changed the Atoms object (bitwise comparison of every '
@@ -1902,7 +1967,7 @@ def _args_tokens(case, r):
     pu = kw.get('prop_unit')
     toks = ['args']
     toks.append('-' if pn is None else f"{len(pn)} " + ' '.join(wire(n) for n in pn))
-    toks.append('-' if un is None else f"{len(un)} " + ' '.join(_u(u, r.fW, r.fR, n) for n, u in zip(pn or own, un)))
+    toks.append('-' if un is None else f"{len(un)} " + ' '.join(_u(u, r.fW, r.fR, n) for n, u in zip(own if pn is None else pn, un)))
     toks.append('-' if pu is None else f"{len(pu)} " + ' '.join(f"{wire(n)} {_u(u, r.fW, r.fR, n)}" for n, u in pu.items()))
     return ' ' + ' '.join(toks).replace('  ', ' ')
 
@@ -2337,6 +2402,9 @@ def _classes(case, cover):
     if case['kind'] == 'refuse':
         hit('refusal: ' + case['which'])
     if case['kind'] in ('atoms', 'sys'):
+        hit('arguments as: ' + case.get('argform', 'list'))
+        if case.get('cont'):
+            hit('symbols / masses / pbc as: ' + case['cont'])
         hit('call form: ' + case.get('call', 'prop_unit') + (' (positional)' if case.get('positional') and case['via'] == 'tree' else ''))
     if case['kind'] == 'sys':
         if any(m == 0.0 for m in case['masses'] if m is not None):
@@ -2412,7 +2480,7 @@ def _writable(c, rr):
 
 def correspond(ctx):
     rng = ctx.rng
-    N = ctx.n(700, 12000)
+    N = ctx.n(1000, 12000)
     correspond_nest(ctx, ctx.n(150, 2000))
     runs = []
     classes = {}
@@ -2702,6 +2770,10 @@ def oracle(ctx, case, r: RealRun):
         tag += ' [units handed over as ' + {'lists': 'prop_name= and unit= lists', 'units': 'a unit= list alone', 'names':
                                              'a prop_name= list alone', 'default': 'nothing (defaults)'}[case['call']] \
             + (', positionally' if case.get('positional') and via == 'tree' else '') + ']'
+    if k in ('atoms', 'sys') and case.get('argform', 'list') != 'list':
+        tag += f" [arguments as {case['argform']}]"
+    if k == 'sys' and case.get('cont', 'list') != 'list':
+        tag += f" [symbols / masses / pbc given as {case['cont']}]"
     if 'second_of' in case:
         tag += ' [second dump of the same object, after in-place edits ' + json.dumps(case['second_of']['again'])[:160] + ']'
     if k == 'ec' and case['cs'] not in EC_SYSTEMS and (r.write_error or '').startswith('ValueError: Invalid crystal_system'):
@@ -2812,7 +2884,7 @@ def oracle(ctx, case, r: RealRun):
         want_sym = list(case['symbols']) + [None] * max(0, ntypes - len(case['symbols']))
         if 'symbols' in ov:
             want_sym = [ov['symbols']] if isinstance(ov['symbols'], str) else list(ov['symbols'])
-        if list(r.read.symbols) != want_sym or not all(s is None or type(s) is str for s in r.read.symbols):
+        if list(r.read.symbols) != want_sym or not all(s is None or isinstance(s, str) for s in r.read.symbols):
             ctx.violate(f'sys:{via}:symbols', f'{tag}: symbols {r.read.symbols!r} read back, {want_sym} ' +
                         ('given to the reader (symbols=)' if 'symbols' in ov else 'written'), rp)
             ok = False
@@ -2867,7 +2939,7 @@ FIXED_CASES = [
 
 def search(ctx, broken):
     rng = random.Random(ctx.seed * 7919 + 10)
-    N = ctx.n(500, 6000) * (3 if broken else 1)
+    N = ctx.n(800, 6000) * (3 if broken else 1)
     # first the cases on which model and implementation disagreed
     pending = [d.replay['case'] for d in ctx.disagreements if isinstance(d.replay, dict) and 'case' in d.replay]
     try:
@@ -2925,7 +2997,9 @@ MANIFEST = {
             'pos->angstrom, symbols/masses padding, near-zero clean-up of the vects/Cij setters), of '
             'ElasticConstants.normalized_as for every crystal system (normForm) and of objects with state (a Box keeps '
             'its reciprocal vectors until the vects setter drops them; a System holds its Box; Box.model(model=) on an '
-            'existing object; in-place edit of a coordinate). Theorems (all inputs, any field): reshape(flatten)=id and flatten(reshape)=id for every '
+            'existing object; in-place edit of a coordinate) and of the argument handling of Atoms.model / System.model '
+            '(resolveCall: prop_unit dictionary, prop_name + unit lists, unit list alone, prop_name alone, nothing; '
+            'refusals). Theorems (all inputs, any field): reshape(flatten)=id and flatten(reshape)=id for every '
             'shape; value_unit(model(x))=x and error_unit = the stored error for every non-zero factor, through the tree '
             'and through XML text (exact exception: a shape-(1,) vector is read as a scalar); Box, Atoms, System (cell, '
             'origin, pbc, symbols, masses, every property incl. box-scaled ones via rel_cart inverse, det != 0; also for '
@@ -2935,14 +3009,18 @@ MANIFEST = {
             'constants) '
             'comes back exactly and the stored representation is stable under re-storing; in every reachable state '
             'of a Box object its conversions are those of its current cell, so an existing Box updated from a model '
-            'and a System written with box-scaled positions behave like freshly constructed objects; the object '
+            'and a System written with box-scaled positions behave like freshly constructed objects; every call form '
+            'that describes the same properties and units writes the same tree, the bare unit list is aligned with the '
+            "object's own properties (system_model_unit_list_roundtrip), the documented refusals; the object '
             'invariants are established by the setters (cleanVects_idem, cijSet_idem); the stored physical value is '
             'independent of the working units at write vs read time, and under two configurations every number '
             '(value, error, box length, box-scaled property, elastic constant) comes back times the C09 dimension '
             'factor ratio. Tie: differential correspondence of the real writers/readers and of object operation '
             'sequences against the Lean driver over tree, JSON text and XML text under different uc.reset_units '
             'configurations, numpy reshape vs the model; clause oracle on the real code with unit factors of compound '
-            'unit expressions evaluated independently of uc.parse and an exact rational account of object sessions.',
+            'unit expressions evaluated independently of uc.parse, uc.unit and numericalunits\' derived units (own table: SI '
+            'value and dimension per name, base factors from the chosen working units) and an exact rational account of '
+            'object sessions.',
     'note': 'Trusted: Lean kernel + propext/Classical.choice/Quot.sound; DataModelDict/xmltodict/json codecs (observed, '
             'not verified: JSON = identity on the tree, XML = xmlNorm); uc.parse factors are parameters (C09), supplied '
             'on each run by an evaluator that shares nothing with uc.parse; the Hill estimates behind '
